@@ -122,15 +122,24 @@ def lay_name(layout):
     return "model-order" if layout is None else "permuted-with-inserted-unused-slots"
 
 
-def run_pool(ck, tasks, mode, site):
+def run_pool(ck, tasks, mode, site, **kw):
     try:
-        return pool.map_tasks("impl.c18", tasks, mode=mode)
+        return pool.map_tasks("impl.c18", tasks, mode=mode, **kw)
     except pool.WorkerError as e:
         ck.violation("impl-crash", {"site": site, "error": str(e)[-800:]}, key={"site": site, "kind": "worker-died"})
         ck.finish()
 
 
 def main():
+    import time
+    t0 = [time.time()]
+    phases = {}
+
+    def phase(nm):
+        now = time.time()
+        phases[nm] = round(now - t0[0], 1)
+        t0[0] = now
+
     ck = Check("C18")
     tier = ck.tier
     rnd = random.Random(ck.seed)
@@ -142,21 +151,26 @@ def main():
         "proposal that changes the state with acceptance strictly between 0 and 1."
     )
     try:
-        r = tlc.run(SPEC, "PedigreeSampler", "MC_%s.cfg" % tier, timeout=3000 if tier == "quick" else 7000)
-        ck.add_tlc(r, "PedigreeSampler")
-        if r.violated:
-            ck.violation("model", {"invariant": r.violated, "text": r.error_text[:1500]}, key={"model": "PedigreeSampler"})
-        killed = 0
-        for cfg, inv in MUTANTS:
-            m = tlc.run(SPEC, "PedigreeSampler", cfg, timeout=900)
-            if m.violated != inv:
-                ck.machinery_failure("mutant spec %s: expected %s, got %s" % (cfg, inv, m.violated))
-            killed += 1 if inv else 0
+        # the mutant specifications are small: they run beside the model-checking run
+        from concurrent.futures import ThreadPoolExecutor
+        with ThreadPoolExecutor(max_workers=3) as ex:
+            futs = [(cfg, inv, ex.submit(tlc.run, SPEC, "PedigreeSampler", cfg, timeout=900, workers=2)) for cfg, inv in MUTANTS]
+            r = tlc.run(SPEC, "PedigreeSampler", "MC_%s.cfg" % tier, timeout=3000 if tier == "quick" else 7000)
+            ck.add_tlc(r, "PedigreeSampler")
+            if r.violated:
+                ck.violation("model", {"invariant": r.violated, "text": r.error_text[:1500]}, key={"model": "PedigreeSampler"})
+            killed = 0
+            for cfg, inv, fut in futs:
+                m = fut.result()
+                if m.violated != inv:
+                    ck.machinery_failure("mutant spec %s: expected %s, got %s" % (cfg, inv, m.violated))
+                killed += 1 if inv else 0
         ck.note("mutant_specs_killed", killed)
         ck.note("mutant_spec_not_killed_on_balanced_pedigrees_as_expected", "Mutant_origin_balanced.cfg")
     except tlc.TLCError as e:
         ck.machinery_failure(str(e))
 
+    phase("tlc-model+mutants")
     peds = {}
     rowpeds = set()
     table = {}          # ped name -> {state key -> pi (Fraction)}
@@ -179,9 +193,11 @@ def main():
     ck.note("pedigrees", {n: len(t) for n, t in table.items()})
 
     # the sampler's own pair / blanket / children construction vs the model's
-    for name in table:
+    pair_names = list(table)
+    pair_res = run_pool(ck, [{"op": "pairs", "ped": peds[name]} for name in pair_names], "jit",
+                        "parental_pair_markov_blankets", nproc=1, warm_first=False)
+    for name, rr in zip(pair_names, pair_res):
         ped = peds[name]
-        rr = run_pool(ck, [{"op": "pairs", "ped": ped}], "jit", "parental_pair_markov_blankets")[0]
         if not rr["ok"]:
             ck.violation("impl-error", {"error": rr["error"]}, key={"site": "parental_pair_markov_blankets", "ped": name})
             continue
@@ -278,6 +294,7 @@ def main():
             if tkey(row["after"]) != want_after:
                 ck.violation("swap-effect", {"ped": name, "state": s, "row": row}, key=dict(key, what="effect"))
 
+    phase("parse+pairs")
     # ---- spec -> code: allele kernels (compiled), model-order layout and the permuted / padded layout ------
     tasks, owners = [], []
     for name, sts in states.items():
@@ -302,6 +319,7 @@ def main():
             else:
                 judge_alleles(name, s, o["rows"], layout, False)
 
+    phase("allele-kernels-jit")
     # ---- spec -> code: the kernels with ONE likelihood cache shared by all individuals, moves and states ----
     # (interpreted; the mixed-ploidy pedigrees in their different sample orders)
     mixed = [name for name in sorted(table) if len(set(peds[name]["ploidy"])) > 1]
@@ -330,6 +348,7 @@ def main():
             judge_swaps(name, s, o["swaps"], layout, True)
     ck.note("shared_cache_walk", {"pedigrees": mixed, "states": nwalk})
 
+    phase("cached-walk-py")
     # numeric stationarity of the extracted kernels w.r.t. the model joint:
     #   sum_b pi(s_b) K(s_b -> s_c) = pi(s_c) on every conditional slice
     worst = {"gibbs": 0.0, "mh": 0.0}
@@ -363,6 +382,7 @@ def main():
                                  key=dict(ped_features(peds[name])[i], ped=name, site=site, what="stationarity"))
     ck.note("max_stationarity_residual", worst)
 
+    phase("stationarity")
     # ---- spec -> code: swap step (interpreted, index draws forced) -----------
     tasks, owners = [], []
     for name, sts in states.items():
@@ -400,6 +420,7 @@ def main():
                               "selfing": p == q, "what": "detailed-balance"})
     ck.note("max_swap_detailed_balance_residual", worst_sw)
 
+    phase("swap-py")
     # ---- spec -> code: swap step compiled (both parents homozygous) ----------
     tasks, owners = [], []
     for name, sts in states.items():
@@ -411,7 +432,8 @@ def main():
         if homo:
             tasks.append({"op": "swap_jit", "ped": ped, "states": homo})
             owners.append((name, homo))
-    res = run_pool(ck, tasks, "jit", "pair_allele_swap_step") if tasks else []
+    # (pair_allele_swap_step is not cacheable: one worker, one compilation)
+    res = run_pool(ck, tasks, "jit", "pair_allele_swap_step", nproc=1, warm_first=False) if tasks else []
     for (name, sts), rr in zip(owners, res):
         ped, tb = peds[name], table[name]
         if not rr["ok"]:
@@ -434,6 +456,7 @@ def main():
                     ck.violation("swap-accept", {"ped": name, "state": s, "pair": [p + 1, q + 1], "impl": row["prob"],
                                                  "model": str(exp), "model_float": float(exp), "mode": "jit"}, key=key)
 
+    phase("swap-jit")
     # ---- code -> spec: interpreted sampler runs ------------------------------
     # pedigrees in RowPedNames: every update also carries the vector it drew from / its prob_accept, computed with
     # the cache mcmc_sampler shares between all individuals; the mixed-ploidy ones get longer runs in both layouts
@@ -545,6 +568,7 @@ def main():
                 ck.machinery_failure("corrupted trace %s not rejected as expected (%s): %s" % (nm, clause, got))
         ck.note("corrupted_traces_rejected", nrej)
 
+    phase("sampler-traces")
     name = sorted(table)[0]
     ck.sample({"kind": "joint-state", "ped": name, "state": states[name][len(states[name]) // 2],
                "pi_unnormalised": str(table[name][tkey(states[name][len(states[name]) // 2])])})
@@ -559,6 +583,7 @@ def main():
         "pair_allele_swap_step is observed interpreted (NUMBA_DISABLE_JIT=1) with np.random.randint forced; "
         "compiled only on states where the draw does not matter (numba compiles the same source)",
     ]
+    ck.note("phase_wall_s", phases)
     summary = {}
     for v in ck.violations:
         k = "%s %s" % (v["kind"], json.dumps(v.get("key"), sort_keys=True))
